@@ -5,12 +5,12 @@ CONSTANTS
   MaxExpC1 = 1
   MaxExpC2 = 1
   LevelIdx = {1, 2, 3}
-  SizeIdx = {1, 2, 3, 4}
+  SizeIdx = {1, 3, 4, 6, 7}
   Owners = {"o1", "o2"}
   Providers = {"p1", "p2"}
   DSeqs = {1, 11, 111}
   GSeqs = {1, 11, 111}
   OSeqs = {1, 11, 111}
-  MaxGroupsD = 10
+  MaxGroupsD = 12
 INIT ExportInit
 NEXT ExportNext
